@@ -96,6 +96,8 @@ const c13Def = `{"type":"object","properties":{
      "tls":{"type":"object","default":{"on":true},"properties":{"on":{"type":"boolean"},"ciphers":{"default":["x",{"y":1}]}}}}},
   "list":{"default":[1,2,{"k":"v"}]},"n":{"default":1},"s":{"default":"str"},"nul":{"default":null},
   "m":{"properties":{"deep":{"properties":{"leaf":{"default":{"a":{"b":[]}}}}}}}}}`
+const c13Cold = `{"properties":{"p":{"$ref":"#/$defs/a~1b/properties/x~0y/items/0"},"q":{"$ref":"#/$defs/c~1~1d~0~0/$defs/e~01/anyOf/1"},"r":{"$ref":"#/$defs/a~1b/properties/x~0y/items/0"}},
+  "$defs":{"a/b":{"properties":{"x~y":{"items":[{"type":"integer"},{"type":"null"}]}}},"c//d~~":{"$defs":{"e~1":{"anyOf":[false,{"type":"string"}]}}}},"$schema":"http://json-schema.org/draft-07/schema#"}`
 const c13Dep7 = `{"$schema":"http://json-schema.org/draft-07/schema#","required":["r1","r2","r3"],"dependencies":{"t1":["p"],"t2":["q","r2"],"t3":{"required":["s"]}}}`
 const c13D7 = `{"$schema":"http://json-schema.org/draft-07/schema#","definitions":{"p":{"$id":"#pos","type":"integer","minimum":0}},"items":[{"$ref":"#pos"},{"type":"string"}],"additionalItems":{"$ref":"#pos","maximum":-1},"dependencies":{"a":["b"],"c":{"required":["d"]}}}`
 
@@ -347,6 +349,23 @@ func (c13) Run(c *fw.Case) {
 			case 1:
 				add("W4-clone", func() string { return digestBytes(json.Marshal(rootS.CloneSchemas())) })
 			case 2:
+				if r.IntN(4) == 0 {
+					// a document that NO sequential code of this process has resolved before: its references are pointers through
+					// names that need ~0 / ~1 unescaping, so whatever the package remembers about a pointer string process-wide is
+					// first computed while other goroutines ask for the same string
+					add("W4-resolve-cold", func() string {
+						var cs jsonschema.Schema
+						if err := json.Unmarshal([]byte(c13Cold), &cs); err != nil {
+							return "unmarshal-error"
+						}
+						crs, err := cs.Resolve(nil)
+						if err != nil {
+							return "resolve-error"
+						}
+						return fmt.Sprint(crs.Validate(map[string]any{"p": 1.0, "q": "s"}) == nil, crs.Validate(map[string]any{"p": "s"}) == nil)
+					})
+					break
+				}
 				if r.IntN(3) == 0 {
 					// one ResolveOptions VALUE shared by all goroutines (a package-level default, say): without a Loader the
 					// remote reference fails to load, with one it resolves; either way the options are only read
@@ -381,6 +400,26 @@ func (c13) Run(c *fw.Case) {
 				return digestBytes(json.Marshal(&s))
 			})
 		}
+	}
+
+	if c.Idx%3 == 0 {
+		// in a third of the processes EVERY goroutine starts with the cold document: k simultaneous first uses
+		coldRun := func() string {
+			var cs jsonschema.Schema
+			if err := json.Unmarshal([]byte(c13Cold), &cs); err != nil {
+				return "unmarshal-error"
+			}
+			crs, err := cs.Resolve(nil)
+			if err != nil {
+				return "resolve-error"
+			}
+			return fmt.Sprint(crs.Validate(map[string]any{"p": 1.0, "q": "s"}) == nil, crs.Validate(map[string]any{"p": "s"}) == nil)
+		}
+		first := make([]c13call, 0, k+len(calls))
+		for g := 0; g < k; g++ {
+			first = append(first, c13call{"W4-resolve-cold", coldRun})
+		}
+		calls = append(first, calls...)
 	}
 
 	// --- hook: seeded yields and window widening ---
